@@ -28,7 +28,8 @@ pub fn parse_impl(src: &str) -> String {
                 if l < 1 || l as usize > lines.len() {
                     return format!("(bad-errors line-out-of-source {} {})", l, c);
                 }
-                let len = lines[l as usize - 1].len() as isize;
+                // columns count characters (ANTLR's charPositionInLine does)
+                let len = lines[l as usize - 1].chars().count() as isize;
                 if c < 1 || c > len + 1 {
                     return format!("(bad-errors column-out-of-source {} {})", l, c);
                 }
@@ -189,7 +190,7 @@ pub fn escape_literal(rng: &mut Rng) -> String {
 }
 
 const GAPS: &[&str] = &["", "", " ", "\n", "\n  ", "\r\n", "\t", " \n", "// c\n", "\n\n", "  ", "\n\t"];
-const PREFIXES: &[&str] = &["", "", "", "1 + ", "'ééé' + ", "'''a\nb''' + ", "\"\"\"\n\n\"\"\" +\n", "x.y +\n", "[1,\n2] +", "'😀'+"];
+const PREFIXES: &[&str] = &["", "", "", "1 + ", "'ééé' + ", "'éééééééé'+", "'日本語' +\n'😀😀😀😀' + ", "'''a\nb''' + ", "\"\"\"\n\n\"\"\" +\n", "x.y +\n", "[1,\n2] +", "'😀'+"];
 
 /// A source whose only error is a macro-expansion error, with the byte offset of the argument
 /// the error is about (that argument is a single token, so the position is that token's).
